@@ -267,6 +267,8 @@ def compile_plan(plan, world, root):
     if plan.get("out_accept"):
         budget += 400000  # every short write is one event; the stream may be written byte by byte
     lines.append("budget %d" % budget)
+    if plan.get("tty"):
+        lines.append("tty 1")
     if plan.get("fifo_block") is not None:
         lines.append("fifo_block %d" % plan["fifo_block"])
     return "\n".join(lines) + "\n"
